@@ -9,8 +9,14 @@ use vharness::*;
 use vls_persist::kvv::cloud::CloudKVVStore;
 use vls_persist::kvv::memory::MemoryKVVStore;
 use vls_persist::kvv::redb::RedbKVVStore;
-use vls_persist::kvv::{KVVStore, KVV};
-use lightning_signer::persist::Error;
+use vls_persist::kvv::{JsonFormat, KVVPersister, KVVStore, KVV};
+use lightning_signer::persist::{Error, Mutations, Persist};
+
+/// every store is driven through the Persist-level wrapper the signer uses
+type P<S> = KVVPersister<S, JsonFormat>;
+fn wrap<S: KVVStore>(s: S) -> P<S> {
+    KVVPersister(s, JsonFormat)
+}
 
 type Kvv = (String, u64, Vec<u8>);
 
@@ -146,8 +152,11 @@ fn guarded(f: impl FnOnce() -> Obs) -> Obs {
     }
 }
 
-/// one request on one real store
-fn apply<S: KVVStore>(s: &S, op: &Op) -> Obs {
+/// one request on one real store: the KVVStore calls on the store itself, the transaction calls
+/// and put_batch_unlogged (the record list exactly as given, repeated keys included) through
+/// `Persist for KVVPersister`
+fn apply<S: KVVStore>(p: &P<S>, op: &Op) -> Obs {
+    let s: &S = &p.0;
     guarded(|| match op {
         Op::Put(k, v) => unit(s.put(k, v.clone())),
         Op::PutV(k, ver, v) => unit(s.put_with_version(k, *ver, v.clone())),
@@ -166,14 +175,17 @@ fn apply<S: KVVStore>(s: &S, op: &Op) -> Obs {
             Err(e) => unit(Err(e)),
         },
         Op::Reopen => Obs::Unit,
-        Op::Enter => unit(s.enter()),
-        Op::Prepare => Obs::List(s.prepare().into_inner().into_iter().map(|(k, (v, x))| (k, v, x)).collect()),
-        Op::Commit => unit(s.commit()),
-        Op::Unlogged(l) => unit(s.put_batch_unlogged(l.iter().map(|e| KVV(e.0.clone(), (e.1, e.2.clone()))).collect())),
+        Op::Enter => unit(<P<S> as Persist>::enter(p)),
+        Op::Prepare => Obs::List(<P<S> as Persist>::prepare(p).into_inner().into_iter().map(|(k, (v, x))| (k, v, x)).collect()),
+        Op::Commit => unit(<P<S> as Persist>::commit(p)),
+        Op::Unlogged(l) => {
+            let muts = Mutations::from_vec(l.iter().map(|e| (e.0.clone(), (e.1, e.2.clone()))).collect());
+            unit(<P<S> as Persist>::put_batch_unlogged(p, muts))
+        }
     })
 }
 
-fn dump<S: KVVStore>(s: &S) -> Vec<Kvv> {
+fn dump<S: KVVStore>(s: &P<S>) -> Vec<Kvv> {
     match apply(s, &Op::GetPrefix(String::new())) {
         Obs::List(l) => l,
         _ => vec![("<dump failed>".into(), 0, vec![])],
@@ -297,6 +309,27 @@ struct CloudGhost {
     writes_since_report: bool,
 }
 
+/// an accepted list must be acceptable entry by entry, in the order given: a key may come back
+/// only at a higher version, or at the same version with the same content
+fn list_conflict(l: &[Kvv]) -> Option<String> {
+    let mut run: BTreeMap<&str, (u64, &Vec<u8>)> = BTreeMap::new();
+    for e in l {
+        if let Some((v, x)) = run.get(e.0.as_str()) {
+            if e.1 < *v {
+                return Some(format!("{} after version {}", skvv(e), v));
+            }
+            if e.1 == *v && e.2 != **x {
+                return Some(format!("{} after {}@{}={}", skvv(e), skey(&e.0), v, sval(x)));
+            }
+            if e.1 == *v {
+                continue;
+            }
+        }
+        run.insert(e.0.as_str(), (e.1, &e.2));
+    }
+    None
+}
+
 fn find<'a>(d: &'a [Kvv], k: &str) -> Option<&'a Kvv> {
     d.iter().find(|e| e.0 == k)
 }
@@ -361,6 +394,9 @@ impl Monitor {
             }
             Op::Batch(l) | Op::Unlogged(l) => {
                 if ok {
+                    if let Some(c) = list_conflict(l) {
+                        self.flag("list-with-conflicting-repeat-accepted", format!("{}: {} ({})", which, sop(op), c));
+                    }
                     for e in l {
                         if let Some(b) = find(before, &e.0) {
                             if b.1 == e.1 && b.2 != e.2 {
@@ -498,6 +534,9 @@ impl Monitor {
             Op::Unlogged(l) => {
                 g.writes_since_report = true;
                 if *obs == Obs::Unit {
+                    if let Some(c) = list_conflict(l) {
+                        self.flag("list-with-conflicting-repeat-accepted", format!("{}: {} ({})", name, sop(op), c));
+                    }
                     // every record of the list, tombstones included, is now in the local store
                     let mut lastof: BTreeMap<String, (u64, Vec<u8>)> = BTreeMap::new();
                     for e in l {
@@ -649,6 +688,23 @@ impl Monitor {
                 self.flag("reopen-changed-contents", "redb".into());
             }
         }
+        // get_prefix returns exactly the stored entries whose key starts with the prefix, in key order
+        // (the dump is get_prefix(""); the cloud stores answer from the local store)
+        if let Op::GetPrefix(q) = op {
+            for (name, obs, d) in [("memory", &after.m.0, &after.m.1), ("redb", &after.d.0, &after.d.1),
+                                   ("cloud", &after.c.0, &after.c.1), ("cloud on redb", &after.r.0, &after.r.1)] {
+                if let Obs::List(l) = obs {
+                    let want: Vec<Kvv> = d.iter().filter(|e| e.0.starts_with(q.as_str())).cloned().collect();
+                    if *l != want {
+                        self.flag(
+                            "get-prefix-not-the-prefixed-entries",
+                            format!("{}: {} -> {}, stored with that prefix: [{}]", name, sop(op), sobs(obs),
+                                    want.iter().map(skvv).collect::<Vec<_>>().join(", ")),
+                        );
+                    }
+                }
+            }
+        }
         self.cloud(0, op, probe, before, after);
         self.cloud(1, op, probe, before, after);
         // both cloud stores answer alike between restarts (the model covers each separately)
@@ -661,12 +717,12 @@ impl Monitor {
 }
 
 struct Sys {
-    mem: MemoryKVVStore,
+    mem: P<MemoryKVVStore>,
     dir: tempfile::TempDir,
-    redb: Option<RedbKVVStore>,
-    cloud: CloudKVVStore<MemoryKVVStore>,
+    redb: Option<P<RedbKVVStore>>,
+    cloud: P<CloudKVVStore<MemoryKVVStore>>,
     rdir: tempfile::TempDir,
-    rcloud: Option<CloudKVVStore<RedbKVVStore>>,
+    rcloud: Option<P<CloudKVVStore<RedbKVVStore>>>,
     rsid: Vec<u8>,
     r_in_txn: bool,
     probe: Vec<String>,
@@ -678,17 +734,17 @@ struct Sys {
 impl Sys {
     fn new(probe: &[String]) -> Sys {
         let dir = tempfile::Builder::new().prefix("verif-kvv").tempdir_in(shm()).expect("tempdir");
-        let redb = RedbKVVStore::new(dir.path());
+        let redb = wrap(RedbKVVStore::new(dir.path()));
         let rdir = tempfile::Builder::new().prefix("verif-kvvc").tempdir_in(shm()).expect("tempdir");
         let rlocal = RedbKVVStore::new(rdir.path());
         let rsid = rlocal.signer_id().to_vec();
         let mut s = Sys {
-            mem: MemoryKVVStore::new(SID),
+            mem: wrap(MemoryKVVStore::new(SID)),
             dir,
             redb: Some(redb),
-            cloud: CloudKVVStore::new(MemoryKVVStore::new(SID)),
+            cloud: wrap(CloudKVVStore::new(MemoryKVVStore::new(SID))),
             rdir,
-            rcloud: Some(CloudKVVStore::new(rlocal)),
+            rcloud: Some(wrap(CloudKVVStore::new(rlocal))),
             rsid,
             r_in_txn: false,
             probe: probe.to_vec(),
@@ -772,7 +828,7 @@ impl Sys {
         let od = if *op == Op::Reopen {
             let path = self.dir.path().to_path_buf();
             drop(self.redb.take());
-            self.redb = Some(RedbKVVStore::new(&path));
+            self.redb = Some(wrap(RedbKVVStore::new(&path)));
             Obs::Unit
         } else {
             apply(self.redb.as_ref().unwrap(), op)
@@ -787,7 +843,7 @@ impl Sys {
         let or = if *op == Op::Reopen {
             let path = self.rdir.path().to_path_buf();
             drop(self.rcloud.take());
-            self.rcloud = Some(CloudKVVStore::new(RedbKVVStore::new(&path)));
+            self.rcloud = Some(wrap(CloudKVVStore::new(RedbKVVStore::new(&path))));
             self.r_in_txn = false;
             Obs::Unit
         } else {
@@ -1027,6 +1083,23 @@ fn corpus() -> Vec<Vec<Op>> {
              Op::Enter, Op::Get(s("b")), Op::Put(s("b"), b("y")), Op::Get(s("b")), Op::Prepare, Op::Commit],
         vec![Op::Enter, Op::Unlogged(vec![(s("a"), 1, b(""))]), Op::Get(s("a"))],
         vec![Op::Unlogged(vec![(s("a"), 2, b("")), (s("a"), 1, b("x"))]), Op::Unlogged(vec![]), Op::Unlogged(vec![(s("a"), 1, b("")), (s("a"), 2, b(""))]), Op::GetPrefix(s(""))],
+        // record lists that repeat a key, as the caller hands them over
+        vec![Op::Unlogged(vec![(s("a"), 1, b("x")), (s("a"), 0, b("y"))]), Op::GetPrefix(s("")),
+             Op::Unlogged(vec![(s("a"), 1, b("x")), (s("a"), 1, b("y"))]), Op::GetPrefix(s("")),
+             Op::Unlogged(vec![(s("a"), 1, b("x")), (s("a"), 1, b("x"))]), Op::GetPrefix(s("")),
+             Op::Unlogged(vec![(s("a"), 1, b("x")), (s("a"), 2, b("y"))]), Op::GetPrefix(s("")), Op::Reopen,
+             Op::Unlogged(vec![(s("b"), 0, b("x")), (s("a"), 3, b("")), (s("b"), 1, b("y")), (s("a"), 2, b("y"))]), Op::GetPrefix(s("")),
+             Op::Unlogged(vec![(s("a"), 3, b("x")), (s("a"), 2, b("y"))]), Op::Enter, Op::Get(s("a")), Op::Get(s("b"))],
+        vec![Op::Enter, Op::Put(s("a"), b("x")), Op::Prepare, Op::Commit, Op::Reopen,
+             Op::Unlogged(vec![(s("a"), 1, b("y")), (s("a"), 0, b("x"))]), Op::Unlogged(vec![(s("a"), 0, b("x")), (s("a"), 1, b("y"))]),
+             Op::Enter, Op::Get(s("a")), Op::GetVersion(s("a"))],
+        // prefixes that are stored keys, proper prefixes, empty, between keys, beyond a key
+        vec![Op::Put(s("a"), b("x")), Op::Put(s("a/x"), b("x")), Op::Put(s("a/y"), b("y")), Op::Put(s("a0"), b("y")), Op::Reopen,
+             Op::GetPrefix(s("a")), Op::GetPrefix(s("a/")), Op::GetPrefix(s("a/x")), Op::GetPrefix(s("a/y")), Op::GetPrefix(s("a0")),
+             Op::GetPrefix(s("")), Op::GetPrefix(s("a/xx")), Op::GetPrefix(s("a/w")), Op::GetPrefix(s("a/z")), Op::GetPrefix(s("a1")),
+             Op::GetPrefix(s("b")), Op::GetPrefix(s("A"))],
+        vec![Op::Unlogged(vec![(s("a"), 0, b("x")), (s("a/x"), 1, b("")), (s("a0"), 0, b("y"))]), Op::GetPrefix(s("a")), Op::GetPrefix(s("a/x")),
+             Op::Enter, Op::Put(s("a/y"), b("y")), Op::GetPrefix(s("a")), Op::Prepare, Op::Commit, Op::GetPrefix(s("a")), Op::GetPrefix(s("a/y"))],
         // prefixes and order
         vec![Op::Put(s("a/b"), b("x")), Op::Put(s("a"), b("x")), Op::Put(s("b"), b("y")), Op::Put(s("a0"), b("y")), Op::Put(s("a/"), b("y")),
              Op::GetPrefix(s("a")), Op::GetPrefix(s("a/")), Op::GetPrefix(s("a/b")), Op::GetPrefix(s("")), Op::GetPrefix(s("c")), Op::GetPrefix(s("a/b/c"))],
@@ -1052,6 +1125,9 @@ fn mini_alphabet() -> Vec<Op> {
     v.push(Op::Unlogged(vec![(s("a"), 2, b(""))]));
     v.push(Op::Unlogged(vec![(s("a"), 1, b("x"))]));
     v.push(Op::Unlogged(vec![(s("b"), 1, b("")), (s("a"), 0, b("y"))]));
+    v.push(Op::Unlogged(vec![(s("a"), 1, b("x")), (s("a"), 0, b("y"))]));
+    v.push(Op::Unlogged(vec![(s("a"), 1, b("x")), (s("a"), 1, b("y"))]));
+    v.push(Op::GetPrefix(s("a")));
     v.extend([Op::Get(s("a")), Op::GetVersion(s("a")), Op::GetPrefix(s("")), Op::Reopen, Op::Enter, Op::Prepare, Op::Commit]);
     v
 }
@@ -1104,7 +1180,13 @@ fn alphabet(tier: &str) -> Vec<Op> {
     }
     v.push(Op::Unlogged(vec![(s("a"), 2, b("")), (s(k2[1]), 1, b(""))]));
     v.push(Op::Unlogged(vec![(s("a"), 1, b("x")), (s(k2[1]), 0, b("x"))]));
-    for p in ["", "a", "a/", "b", "c"] {
+    // lists repeating a key: older after newer, same version other / same content, newer after older
+    for (v1, x1, v2, x2) in [(2u64, "x", 1u64, "y"), (1, "x", 1, "y"), (1, "x", 1, "x"), (1, "x", 2, "y"), (2, "", 1, "x")] {
+        v.push(Op::Unlogged(vec![(s("a"), v1, b(x1)), (s("a"), v2, b(x2))]));
+    }
+    v.push(Op::Unlogged(vec![(s(k2[1]), 0, b("x")), (s("a"), 2, b("x")), (s(k2[1]), 1, b("")), (s("a"), 1, b("x"))]));
+    // prefixes: empty, stored keys (with and without longer keys), proper prefixes, between keys, beyond
+    for p in ["", "a", "a/", "a/b", "b", "c", "a/a", "a0", "a/b/"] {
         v.push(Op::GetPrefix(s(p)));
     }
     v.extend([Op::Reopen, Op::Enter, Op::Prepare, Op::Commit]);
@@ -1247,7 +1329,14 @@ fn gen_read(rng: &mut Rng, keys: &[&str]) -> Op {
     match rng.below(4) {
         0 | 1 => Op::Get(rng.pick(keys).to_string()),
         2 => Op::GetVersion(rng.pick(keys).to_string()),
-        _ => Op::GetPrefix(rng.pick(&["", "a", "a/", "a/b", "b", "c", "_"]).to_string()),
+        _ => {
+            if rng.chance(1, 2) {
+                // a prefix that is one of the keys in play
+                Op::GetPrefix(rng.pick(keys).to_string())
+            } else {
+                Op::GetPrefix(rng.pick(&["", "a", "a/", "a/b", "b", "c", "_", "a/a", "a0", "a/b/", "a/c"]).to_string())
+            }
+        }
     }
 }
 
@@ -1309,7 +1398,7 @@ fn random_history(rng: &mut Rng, len: usize, wild: bool, restore: bool) -> Vec<O
             let n = 1 + rng.below(3) as usize;
             let mut l = vec![];
             for _ in 0..n {
-                let k = rng.pick(&keys).to_string();
+                let k = if !l.is_empty() && rng.chance(1, 3) { let e: &Kvv = &l[rng.below(l.len() as u64) as usize]; e.0.clone() } else { rng.pick(&keys).to_string() };
                 let known = cur.get(&k).copied();
                 let ver = match (known, rng.below(6)) {
                     (None, 0..=2) => 1 + rng.below(4),
